@@ -254,6 +254,16 @@ impl Prop for C06 {
             })
             .boxed()
     }
+    fn fuzz_sanitize(k: &mut InsCase) -> bool {
+        k.cols %= 41;
+        k.rows %= 41;
+        if k.cols == 0 || k.rows == 0 {
+            k.cols = 0;
+            k.rows = 0;
+        }
+        k.len %= 48;
+        true
+    }
     fn random_cases(tier: Tier) -> u64 {
         if tier == Tier::Quick { 20_000 } else { 600_000 }
     }
@@ -499,6 +509,15 @@ impl Prop for C07 {
                 RemCase { elem, cols, rows, exact_cap, axis, pop, at, script }
             })
             .boxed()
+    }
+    fn fuzz_sanitize(k: &mut RemCase) -> bool {
+        k.cols %= 41;
+        k.rows %= 41;
+        if k.cols == 0 || k.rows == 0 {
+            k.cols = 0;
+            k.rows = 0;
+        }
+        true
     }
     fn random_cases(tier: Tier) -> u64 {
         if tier == Tier::Quick { 20_000 } else { 600_000 }
